@@ -20,6 +20,9 @@ void ir2c_global_ctors(void);
 unsigned long verif_file_size(const char* path);             // (unsigned long)-1 if missing
 void verif_vfs_freeze(int on);                               // while on, no stdio/unistd mutation persists ("the process is dead")
 long verif_vfs_events(void);                                 // number of persistence events so far
+void verif_vfs_die_after(long n);                            // the simulated process dies right after the n-th persistence event from now
+int verif_vfs_event(void);                                   // a persistence event outside stdio (DiskInterface mutation); returns 1 if the process is dead
+int verif_vfs_frozen(void);
 void verif_expect_fatal(int on);                             // Fatal() is expected by the harness (ends the path quietly)
 }
 #define VERIF_ASSERT(c, msg) __CPROVER_assert((c), msg)
